@@ -544,17 +544,17 @@ def gen_round3(rng, tier):
     out = []
     allr = enum_rebind_cases(rng)                       # 576 combinations
     out += rng.sample(allr, 70) if q else allr
-    for _ in range(50 if q else 1500):
+    for _ in range(50 if q else 400):
         out.append(gen_rebind_case(rng))
-    for _ in range(45 if q else 1000):
+    for _ in range(45 if q else 300):
         out.append(gen_selfmap_case(rng))
-    for _ in range(25 if q else 500):
+    for _ in range(25 if q else 150):
         out.append(gen_tname_case(rng))
-    for _ in range(45 if q else 1000):
+    for _ in range(45 if q else 300):
         out.append(gen_alias_case(rng))
-    for _ in range(40 if q else 800):
+    for _ in range(40 if q else 250):
         out.append(gen_dropped_case(rng))
-    for _ in range(26 if q else 400):
+    for _ in range(26 if q else 130):
         c = gen_multizero_case(rng)
         out.append(c)
         if c.get('multi_zero'):      # inputs of the known finding: once more for the model comparison alone
